@@ -37,7 +37,7 @@ REDIRECT = {
     "timespec_get": "sim_fb_timespec_get",
 }
 REDIRECT_MEM = {
-    "memcpy": "sim_memcpy", "memmove": "sim_memmove", "memset": "sim_memset", "memcmp": "sim_memcmp", "bcmp": "sim_memcmp",
+    "memcpy": "sim_memcpy", "memmove": "sim_memmove", "memset": "sim_memset", "memcmp": "sim_memcmp", "bcmp": "sim_bcmp",
     "strcmp": "sim_strcmp", "strlen": "sim_strlen", "strcpy": "sim_strcpy", "strncpy": "sim_strncpy", "strncmp": "sim_strncmp",
     "__asan_memcpy": "sim_asan_memcpy", "__asan_memmove": "sim_asan_memmove", "__asan_memset": "sim_asan_memset",
 }
